@@ -39,10 +39,18 @@ pub struct Schedule {
 }
 impl Schedule {
     pub fn always_ready() -> Self {
-        Schedule { steps: vec![], then_chunk: 0, then_stall: false }
+        Schedule {
+            steps: vec![],
+            then_chunk: 0,
+            then_stall: false,
+        }
     }
     pub fn constant(chunk: u16, stall: bool) -> Self {
-        Schedule { steps: vec![], then_chunk: chunk, then_stall: stall }
+        Schedule {
+            steps: vec![],
+            then_chunk: chunk,
+            then_stall: stall,
+        }
     }
 }
 
@@ -64,7 +72,15 @@ pub struct Source {
 }
 impl Source {
     pub fn new(data: &[u8], sched: &Schedule, trace: Rc<RefCell<Trace>>) -> Self {
-        Source { data: data.to_vec(), pos: 0, sched: sched.clone(), next: 0, stalled_last: false, run_left: 0, trace }
+        Source {
+            data: data.to_vec(),
+            pos: 0,
+            sched: sched.clone(),
+            next: 0,
+            stalled_last: false,
+            run_left: 0,
+            trace,
+        }
     }
     /// `None` = stall now, `Some(n)` = deliver n bytes into a buffer of `want` bytes
     fn step(&mut self, want: usize) -> Option<usize> {
@@ -124,7 +140,11 @@ impl Read for Source {
     }
 }
 impl futures::io::AsyncRead for Source {
-    fn poll_read(mut self: Pin<&mut Self>, cx: &mut Context<'_>, buf: &mut [u8]) -> Poll<io::Result<usize>> {
+    fn poll_read(
+        mut self: Pin<&mut Self>,
+        cx: &mut Context<'_>,
+        buf: &mut [u8],
+    ) -> Poll<io::Result<usize>> {
         match self.step(buf.len()) {
             None => {
                 cx.waker().wake_by_ref();
@@ -227,47 +247,75 @@ pub fn capacities(kind: u8, stream: &[u8], storage: bool) -> Option<(usize, usiz
 }
 
 /// Call the blocking reader until end of stream (bounded), collecting the outcome of every call.
-pub fn drive_blocking(stream: &[u8], storage: bool, sched: &Schedule, reader_kind: u8, filter: Option<&ProcessedDltFilterConfig>, api: u64) -> (Vec<Outcome>, Trace) {
+pub fn drive_blocking(
+    stream: &[u8],
+    storage: bool,
+    sched: &Schedule,
+    reader_kind: u8,
+    filter: Option<&ProcessedDltFilterConfig>,
+    api: u64,
+) -> (Vec<Outcome>, Trace) {
     let trace = Rc::new(RefCell::new(Trace::default()));
     let src = Source::new(stream, sched, trace.clone());
     let mut out = vec![];
     let bound = stream.len() / 4 + 3;
-    let res = guard(|| {
-        let mut reader = match capacities(reader_kind, stream, storage) {
-            None => DltMessageReader::new(src, storage),
-            Some((b, m)) => DltMessageReader::with_capacity(b, m, src, storage),
-        };
-        let mut outs = vec![];
-        for i in 0..bound + 1 {
-            let slices = use_slice(api, i);
-            let o = match guard(|| if slices { of_slice(reader.next_message_slice()) } else { of_parsed(dlt_core::read::read_message(&mut reader, filter)) }) {
-                Ok(o) => o,
-                Err(p) => Outcome::Panic(p.describe()),
+    let res =
+        guard(|| {
+            let mut reader = match capacities(reader_kind, stream, storage) {
+                None => DltMessageReader::new(src, storage),
+                Some((b, m)) => DltMessageReader::with_capacity(b, m, src, storage),
             };
-            let stop = matches!(o, Outcome::End | Outcome::Panic(_));
-            let ended = matches!(o, Outcome::End);
-            outs.push(o);
-            if ended {
-                // the stream is exhausted: further calls must neither panic nor produce a message
-                for j in 0..2 {
-                    let extra = match guard(|| if use_slice(api, i + 1 + j) { of_slice(reader.next_message_slice()) } else { of_parsed(dlt_core::read::read_message(&mut reader, filter)) }) {
-                        Ok(o) => o,
-                        Err(p) => Outcome::Panic(p.describe()),
-                    };
-                    match extra {
-                        Outcome::Panic(p) => outs.push(Outcome::Panic(format!("call after end of stream: {}", p))),
-                        Outcome::Item(_) | Outcome::Slice(_) | Outcome::Filtered(_) => outs.push(Outcome::Runaway("a message was delivered after end of stream".to_string())),
-                        _ => {}
+            let mut outs = vec![];
+            for i in 0..bound + 1 {
+                let slices = use_slice(api, i);
+                let o = match guard(|| {
+                    if slices {
+                        of_slice(reader.next_message_slice())
+                    } else {
+                        of_parsed(dlt_core::read::read_message(&mut reader, filter))
+                    }
+                }) {
+                    Ok(o) => o,
+                    Err(p) => Outcome::Panic(p.describe()),
+                };
+                let stop = matches!(o, Outcome::End | Outcome::Panic(_));
+                let ended = matches!(o, Outcome::End);
+                outs.push(o);
+                if ended {
+                    // the stream is exhausted: further calls must neither panic nor produce a message
+                    for j in 0..2 {
+                        let extra = match guard(|| {
+                            if use_slice(api, i + 1 + j) {
+                                of_slice(reader.next_message_slice())
+                            } else {
+                                of_parsed(dlt_core::read::read_message(&mut reader, filter))
+                            }
+                        }) {
+                            Ok(o) => o,
+                            Err(p) => Outcome::Panic(p.describe()),
+                        };
+                        match extra {
+                            Outcome::Panic(p) => outs
+                                .push(Outcome::Panic(format!("call after end of stream: {}", p))),
+                            Outcome::Item(_) | Outcome::Slice(_) | Outcome::Filtered(_) => outs
+                                .push(Outcome::Runaway(
+                                    "a message was delivered after end of stream".to_string(),
+                                )),
+                            _ => {}
+                        }
                     }
                 }
+                if stop {
+                    return outs;
+                }
             }
-            if stop {
-                return outs;
-            }
-        }
-        outs.push(Outcome::Runaway(format!("more than {} calls on a {}-byte stream", bound, stream.len())));
-        outs
-    });
+            outs.push(Outcome::Runaway(format!(
+                "more than {} calls on a {}-byte stream",
+                bound,
+                stream.len()
+            )));
+            outs
+        });
     match res {
         Ok(o) => out.extend(o),
         Err(p) => out.push(Outcome::Panic(p.describe())),
@@ -299,13 +347,30 @@ fn block_on_budget<F: Future>(fut: F, budget: usize) -> Option<F::Output> {
 }
 
 /// Same protocol for the async reader, on a hand-rolled executor.
-pub fn drive_async(stream: &[u8], storage: bool, sched: &Schedule, reader_kind: u8, filter: Option<&ProcessedDltFilterConfig>, api: u64) -> (Vec<Outcome>, Trace) {
+pub fn drive_async(
+    stream: &[u8],
+    storage: bool,
+    sched: &Schedule,
+    reader_kind: u8,
+    filter: Option<&ProcessedDltFilterConfig>,
+    api: u64,
+) -> (Vec<Outcome>, Trace) {
     let trace = Rc::new(RefCell::new(Trace::default()));
     let src = Source::new(stream, sched, trace.clone());
     let mut out = vec![];
     let bound = stream.len() / 4 + 3;
     // every poll either delivers >= 1 byte, reaches end of input, or is one of the scheduled stalls
-    let runs: usize = sched.steps.iter().map(|s| if let Step::StallRun(n) = s { *n as usize } else { 0 }).sum();
+    let runs: usize = sched
+        .steps
+        .iter()
+        .map(|s| {
+            if let Step::StallRun(n) = s {
+                *n as usize
+            } else {
+                0
+            }
+        })
+        .sum();
     let budget = 2 * sched.steps.len() + runs + 2 * stream.len() + 64;
     let res = guard(|| {
         let mut reader = match capacities(reader_kind, stream, storage) {
@@ -319,11 +384,14 @@ pub fn drive_async(stream: &[u8], storage: bool, sched: &Schedule, reader_kind: 
                 if slices {
                     block_on_budget(reader.next_message_slice(), budget).map(of_slice)
                 } else {
-                    block_on_budget(dlt_core::stream::read_message(&mut reader, filter), budget).map(of_parsed)
+                    block_on_budget(dlt_core::stream::read_message(&mut reader, filter), budget)
+                        .map(of_parsed)
                 }
             }) {
                 Ok(Some(o)) => o,
-                Ok(None) => Outcome::Runaway(format!("future still pending after {} polls", budget)),
+                Ok(None) => {
+                    Outcome::Runaway(format!("future still pending after {} polls", budget))
+                }
                 Err(p) => Outcome::Panic(p.describe()),
             };
             let stop = matches!(o, Outcome::End | Outcome::Panic(_) | Outcome::Runaway(_));
@@ -332,7 +400,11 @@ pub fn drive_async(stream: &[u8], storage: bool, sched: &Schedule, reader_kind: 
                 return outs;
             }
         }
-        outs.push(Outcome::Runaway(format!("more than {} calls on a {}-byte stream", bound, stream.len())));
+        outs.push(Outcome::Runaway(format!(
+            "more than {} calls on a {}-byte stream",
+            bound,
+            stream.len()
+        )));
         outs
     });
     match res {
@@ -353,9 +425,20 @@ pub struct Reference {
     pub truncated_in_header: bool,
     pub truncated_in_body: bool,
 }
-pub fn reference(stream: &[u8], storage: bool, filter: Option<&ProcessedDltFilterConfig>, api: u64) -> Reference {
+pub fn reference(
+    stream: &[u8],
+    storage: bool,
+    filter: Option<&ProcessedDltFilterConfig>,
+    api: u64,
+) -> Reference {
     let s = if storage { 16 } else { 0 };
-    let mut r = Reference { outcomes: vec![], starts: vec![], hostile_at: None, truncated_in_header: false, truncated_in_body: false };
+    let mut r = Reference {
+        outcomes: vec![],
+        starts: vec![],
+        hostile_at: None,
+        truncated_in_header: false,
+        truncated_in_body: false,
+    };
     let mut pos = 0;
     loop {
         let rem = stream.len() - pos;
@@ -381,10 +464,12 @@ pub fn reference(stream: &[u8], storage: bool, filter: Option<&ProcessedDltFilte
         if use_slice(api, r.outcomes.len()) {
             r.outcomes.push(Outcome::Slice(piece.to_vec()));
         } else {
-            r.outcomes.push(match guard(|| dlt_message(piece, filter, storage).map(|(_, pm)| pm)) {
-                Ok(x) => of_parsed(x.map(Some)),
-                Err(p) => Outcome::Panic(p.describe()),
-            });
+            r.outcomes.push(
+                match guard(|| dlt_message(piece, filter, storage).map(|(_, pm)| pm)) {
+                    Ok(x) => of_parsed(x.map(Some)),
+                    Err(p) => Outcome::Panic(p.describe()),
+                },
+            );
         }
         pos += total;
     }
@@ -394,7 +479,11 @@ pub fn reference(stream: &[u8], storage: bool, filter: Option<&ProcessedDltFilte
 // generators
 
 pub fn stream(storage: bool) -> BoxedStrategy<Vec<u8>> {
-    let st = if storage { g::StorageMode::Always } else { g::StorageMode::Never };
+    let st = if storage {
+        g::StorageMode::Always
+    } else {
+        g::StorageMode::Never
+    };
     let msgs = move |n: std::ops::Range<usize>| {
         vec(
             prop_oneof![30 => g::message(g::MsgParams { storage: st, large: false, ..Default::default() }), 1 => g::message(g::MsgParams { storage: st, ..Default::default() })],
@@ -408,10 +497,69 @@ pub fn stream(storage: bool) -> BoxedStrategy<Vec<u8>> {
         }
         b
     };
-    let big = move || g::message(g::MsgParams { storage: st, ..Default::default() });
+    let big = move || {
+        g::message(g::MsgParams {
+            storage: st,
+            ..Default::default()
+        })
+    };
+    // bursts: one message sent again and again with a single header field changed from one copy to the next (ECU id,
+    // application / context id, level, counter), ids from the small pool the filter configurations refer to
+    let bursts = (
+        g::message(g::MsgParams {
+            storage: st,
+            large: false,
+            pool_ids: true,
+            ..Default::default()
+        }),
+        prop::bool::weighted(0.9),
+        vec((0u8..8, any::<u8>()), 2..10),
+    )
+        .prop_map(|(mut cur, weid, muts)| {
+            if weid && cur.htyp & WEID == 0 {
+                cur.htyp |= WEID;
+                cur.ecu = Some("ECU".to_string());
+                cur.len += 4;
+            }
+            if let Some(x) = &mut cur.ext {
+                x.apid = "APP".to_string();
+            }
+            let mut b = refcodec::encode(&cur);
+            for (what, r) in muts {
+                let r = r as usize;
+                match what {
+                    0..=3 => {
+                        if let Some(e) = &mut cur.ecu {
+                            *e = ["ECU", "A", "ZZZ", "ECU", "APP"][r % 5].to_string();
+                        }
+                    }
+                    4 => {
+                        if let Some(x) = &mut cur.ext {
+                            x.apid = ["APP", "A", "", "CTX"][r % 4].to_string();
+                        }
+                    }
+                    5 => {
+                        if let Some(x) = &mut cur.ext {
+                            x.ctid = ["CTX", "CON", "APP", ""][r % 4].to_string();
+                        }
+                    }
+                    6 => cur.mcnt = r as u8,
+                    _ => {
+                        if let Some(x) = &mut cur.ext {
+                            if (x.msin >> 1) & 7 == 0 {
+                                x.msin = (x.msin & 0x0f) | (((r % 8) as u8) << 4);
+                            }
+                        }
+                    }
+                }
+                b.extend(refcodec::encode(&cur));
+            }
+            b
+        });
     prop_oneof![
         // well-formed sequences
         20 => msgs(0..8).prop_map(move |ms| cat(&ms)),
+        3 => bursts,
         // long streams (more bytes than the buffers of the small readers hold): many small messages, or a few large ones
         1 => prop_oneof![
             (vec(g::message(g::MsgParams { storage: st, large: false, ..Default::default() }), 150..400), any::<u16>()).prop_map(move |(ms, t)| {
